@@ -254,7 +254,7 @@ def kcount_task(p, cfg, rec):
 
 
 # ---------------------------------------------------------------------------------------------------
-def run_resp(size, vw, horizon, values=None, rec=None):
+def run_resp(size, vw, horizon, values=None, rec=None, change=False):
     with quiet():
         s = py4hw.HWSystem()
         vin, sz, sr = s.wire('vin', vw), s.wire('size', 3), s.wire('start_resp')
@@ -271,9 +271,18 @@ def run_resp(size, vw, horizon, values=None, rec=None):
         x, xv = values['vin'], None
     vin.put(x)
     sz.put(size)
+    if change:
+        # the selected value is replaced (another output gets selected) right after the response was started
+        if values is None:
+            x2, xv2 = core.fresh('vin2', vw)
+            vars_['vin2'] = xv2
+        else:
+            x2 = values.get('vin2', 0)
     log = []
     for t in range(horizon):
         sr.put(1 if t == 1 else 0)
+        if change and t == 2:
+            vin.put(x2)
         if values is None:
             rb, rv = core.fresh_bool('ready_%d' % t)
             vars_['ready_%d' % t] = rv
@@ -289,7 +298,8 @@ def run_resp(size, vw, horizon, values=None, rec=None):
 
 def resp_task(p, cfg, rec):
     size, vw, horizon, tail = cfg['size'], cfg['vw'], cfg['horizon'], cfg['tail']
-    log, vars_, xv = run_resp(size, vw, horizon, rec=rec)
+    change = cfg.get('change', False)
+    log, vars_, xv = run_resp(size, vw, horizon, rec=rec, change=change)
     p.res['states'] += 1
     p.res['transitions'] += horizon
     # expected character sequence
@@ -315,14 +325,14 @@ def resp_task(p, cfg, rec):
         cnt = core.simplify_value(core.ite(hs, cnt + 1, cnt))
 
     def replay(values):
-        lg, _, _ = run_resp(size, vw, horizon, values=values)
+        lg, _, _ = run_resp(size, vw, horizon, values=values, change=change)
         chars = [c for (vld, c, r) in lg if vld == 1 and r]
         want = '=' + ('%0*X' % (size, values['vin'] & ((1 << (4 * size)) - 1))) + '!'
         got = ''.join(chr(c) if 32 <= c < 127 else '\\x%02x' % c for c in chars)
         tail_ready = all(values.get('ready_%d' % t, 0) for t in range(horizon - tail, horizon))
         if got == want or (want.startswith(got) and not tail_ready):
             return None
-        return {'vin': hex(values['vin']), 'size': size, 'transferred': got, 'expected': want,
+        return {'vin': hex(values['vin']), 'vin after the start': hex(values.get('vin2', values['vin'])), 'size': size, 'transferred': got, 'expected': want,
                 'ready_pattern': ''.join(str(values.get('ready_%d' % t, 0)) for t in range(horizon))}
     p.prove('every character transferred on valid&&ready is the next character of "=<%d hex digits>!" and nothing follows' % size,
             z3.Or(*viol), inputs=vars_, replay=replay, timeout_s=(120 if p.tier == 'quick' else 900))
@@ -355,6 +365,10 @@ def tasks_for(tier):
             hz = 8 + 4 * (size + 2) if quick else 14 + 5 * (size + 2)
             t.append(('CMDResponse size %d vin %d bits, symbolic ready per cycle, horizon %d' % (size, vw, hz), resp_task,
                       {'size': size, 'vw': vw, 'horizon': hz, 'tail': 3 * (size + 2) + 3}))
+    for size in ((2, 4) if quick else (1, 2, 3, 4)):
+        hz = 8 + 4 * (size + 2) if quick else 14 + 5 * (size + 2)
+        t.append(('CMDResponse size %d vin 16 bits replaced by another value right after the start, symbolic ready per cycle, horizon %d' % (size, hz), resp_task,
+                  {'size': size, 'vw': 16, 'horizon': hz, 'tail': 3 * (size + 2) + 3, 'change': True}))
     return t
 
 
@@ -366,7 +380,7 @@ def main(argv=None):
         assumptions=['digits are upper-case hexadecimal characters (well-formed commands)', 'index wires 8 bit, value wire 16 bit: numbers are compared modulo the wire width',
                      'a character is consumed at an edge with ready and valid high; producer pacing from enumerated delay patterns',
                      'K<n>; with symbolic n only for n <= 4 (9 thorough); response liveness under "ready high during the last cycles of the horizon"'],
-        bounds={'digits': '1..4 per number', 'commands': '1..2 per run (3 thorough)', 'response': 'size 1..4, value 16 bits (8/16/32 thorough), ready symbolic for every cycle of the horizon'},
+        bounds={'digits': '1..4 per number', 'commands': '1..2 per run (3 thorough)', 'response': 'size 1..4, value 16 bits (8/16/32 thorough), ready symbolic for every cycle of the horizon; also with the value wire replaced by a second symbolic value in the cycle after the start pulse (the response must still carry the value selected at the start)'},
         trusted_base=['z3', 'symx operator semantics and fork-and-merge shell', 'monitors in checks/c20.py'], task_limit=1500)
 
 
